@@ -65,21 +65,27 @@ func verifyCaveats(caveats []string, userID string) error {
 
 LoopCaveat:
 	for _, caveat := range caveats {
+		var bit uint8
+		satisfied := true
 		switch {
 		case caveat == Gen:
-			verified |= 1
+			bit = 1
 		case strings.HasPrefix(caveat, UserPrefix):
-			if caveat[len(UserPrefix):] == userID {
-				verified |= 2
-			}
+			bit = 2
+			satisfied = caveat[len(UserPrefix):] == userID
 		case strings.HasPrefix(caveat, TimePrefix):
-			if verifyExpiry(caveat[len(TimePrefix):], now) {
-				verified |= 4
-			}
+			bit = 4
+			satisfied = verifyExpiry(caveat[len(TimePrefix):], now)
 		default:
 			verified |= 8
 			break LoopCaveat
 		}
+		// Every caveat must hold, and each kind may appear only once:
+		// anyone holding a macaroon can append further caveats to it.
+		if !satisfied || verified&bit != 0 {
+			return errors.New("Caveat not satisfied or repeated")
+		}
+		verified |= bit
 	}
 	// Check that all three caveats are verified and no extra caveats
 	// i.e. Uvvv == 0111
